@@ -28,9 +28,9 @@ fn plan(tier: Tier) -> Vec<Workload> {
     let total = toks::enumeration_size(n, enum_len(tier));
     vec![
         Workload::new("enum", (total + BATCH - 1) / BATCH),
-        Workload::new("random", tier.pick(60_000, 1_500_000) / BATCH),
-        Workload::new("data", tier.pick(40_000, 600_000) / BATCH),
-        Workload::new("listing", tier.pick(20_000, 300_000) / BATCH),
+        Workload::new("random", tier.pick(300_000, 3_000_000) / BATCH),
+        Workload::new("data", tier.pick(200_000, 2_000_000) / BATCH),
+        Workload::new("listing", tier.pick(60_000, 600_000) / BATCH),
     ]
 }
 
